@@ -364,7 +364,37 @@ func runL2Case(c L2Case, dumpOnly bool) (o L2Obs) {
 			}
 		}
 		if c.Fmts {
-			o.Fmt = fmtReport(o.Text, gen)
+			// goimports once more, with moq called from a working directory outside the module (absolute
+			// source directory): x/tools/imports resolves package names relative to the working directory
+			var genOutside func(string) (string, error)
+			if c.Pkg == "" {
+				genOutside = func(formatter string) (string, error) {
+					abs, err := filepath.Abs(".")
+					if err != nil {
+						return "", err
+					}
+					tmp, err := os.MkdirTemp("", "moqverif-outside-")
+					if err != nil {
+						return "", err
+					}
+					defer os.RemoveAll(tmp)
+					if err := os.Chdir(tmp); err != nil {
+						return "", err
+					}
+					defer os.Chdir(abs)
+					m, err := moq.New(moq.Config{SrcDir: abs, PkgName: c.Pkg, Formatter: formatter,
+						StubImpl: c.Stub, SkipEnsure: c.Skip, WithResets: c.Resets})
+					if err != nil {
+						return "", err
+					}
+					var b bytes.Buffer
+					if err := m.Mock(&b, c.Args...); err != nil {
+						return "", err
+					}
+					return b.String(), nil
+				}
+			}
+			o.Fmt = fmtReport(o.Text, gen, genOutside)
 		}
 	}()
 	return
